@@ -19,7 +19,7 @@ ASSUMPTIONS = [LEVEL_NOTE]
 
 
 def plan(tier):
-    return {"n": 6 if tier == "quick" else 40, "floor": 100 if tier == "quick" else 2000, "procs": 16, "samples": 3}
+    return {"n": 6 if tier == "quick" else 24, "floor": 100 if tier == "quick" else 1200, "procs": 16, "samples": 3}
 
 
 def rule(tier):
